@@ -1030,6 +1030,10 @@ func (in *Inst[M, A, V, E]) RunAlterations(r *lib.Rng, rep *Report[M], vk prio3.
 			continue
 		}
 		lib.Count("alt-accepted:" + a.Class)
+		if !a.Demand && !in.S.JointRand && a.Class == "nonce:all-aggregators:bitflip" {
+			lib.Count("nonce-changed-for-all-aggregators-accepted-without-joint-randomness(by design)")
+			continue
+		}
 		if !a.Demand {
 			lib.Note("%s %s n=%d: alteration %s (not covered by the property) was accepted", in.S.Type, in.S.Label, in.n, a.Class)
 			continue
@@ -1241,6 +1245,10 @@ func (in *Inst[M, A, V, E]) Hostile(r *lib.Rng, m M, bads []Bad) {
 	for _, b := range bads {
 		in.Dishonest(rep, vk, b)
 	}
+	// the rejected reports left nothing behind in the instance: the same
+	// measurement still aggregates correctly afterwards
+	in.Batch(r, []M{m, m}, false)
+	lib.Count("honest-batch-after-rejections")
 }
 
 // Soundness drives an instance built on the Raw wrapper: the valid encodings
@@ -1318,4 +1326,90 @@ func (in *Inst[M, A, V, E]) ShardInvalid(r *lib.Rng, m M, class string) {
 	}
 	lib.Count("invalid-rejected:public-shard")
 	lib.Count("invalid-rejected-at:public-shard@" + o.FirstStage())
+}
+
+// BitSweep flips EVERY bit of every input share, of the public share (for
+// one aggregator and for all), of the nonce (for one aggregator; for all
+// where the nonce is bound) and of the preparation message of one honest
+// report, one flip per run, and demands rejection each time.
+func (in *Inst[M, A, V, E]) BitSweep(r *lib.Rng, m M) {
+	var vk prio3.VerifyKey
+	copy(vk[:], r.Bytes(32))
+	rep, _, ok := in.Shard(r, m, true)
+	if !ok {
+		return
+	}
+	hw := in.HonestWire(rep, vk)
+	o := in.Run(hw)
+	wit := func() map[string]any {
+		return lib.D("measurement", in.S.Desc(m), "nonce", rep.Nonce[:], "rand", rep.Rand, "verify_key", vk[:])
+	}
+	if !in.checkOut(o, in.S.Out(m), wit, "valid-measurement") {
+		return
+	}
+	n := in.n
+	try := func(class string, who int, bit int, ap func(w *Wire)) {
+		w := hw.Clone()
+		ap(w)
+		o := in.Run(w)
+		in.panics(o, w, class)
+		lib.Count("sweep:" + class)
+		for _, j := range o.Produced() {
+			if who < 0 || who == j {
+				d := w.dump()
+				d["measurement"] = in.S.Desc(m)
+				d["flipped_bit"] = bit
+				d["honest_input_shares"] = hexAll(rep.IS)
+				d["honest_public_share"] = lib.Hex(rep.PS)
+				d["honest_nonce"] = lib.Hex(rep.Nonce[:])
+				d["aggregator_that_output"] = j
+				in.viol("altered-accepted", "bit-sweep:"+class, d)
+				return
+			}
+		}
+		lib.Count("sweep-rejected-at:" + class + "@" + o.FirstStage())
+	}
+	for j := 0; j < n; j++ {
+		class := "input-share-helper"
+		if j == 0 {
+			class = "input-share-leader"
+		}
+		for bit := 0; bit < 8*len(rep.IS[j]); bit++ {
+			try(class, -1, bit, func(w *Wire) { w.IS[j][bit/8] ^= 1 << (bit % 8) })
+		}
+	}
+	for bit := 0; bit < 8*len(rep.PS); bit++ {
+		one := bit % n
+		try("public-share-one-aggregator", -1, bit, func(w *Wire) { w.PS[one][bit/8] ^= 1 << (bit % 8) })
+		try("public-share-all-aggregators", -1, bit, func(w *Wire) {
+			for j := range w.PS {
+				w.PS[j][bit/8] ^= 1 << (bit % 8)
+			}
+		})
+	}
+	for bit := 0; bit < 128; bit++ {
+		one := bit % n
+		try("nonce-one-aggregator", -1, bit, func(w *Wire) { w.Nonce[one][bit/8] ^= 1 << (bit % 8) })
+		if in.S.JointRand {
+			try("nonce-all-aggregators", -1, bit, func(w *Wire) {
+				for j := range w.Nonce {
+					w.Nonce[j][bit/8] ^= 1 << (bit % 8)
+				}
+			})
+		}
+	}
+	for bit := 0; bit < 8*len(o.PrepMsg); bit++ {
+		one := bit % n
+		try("prep-message-one-aggregator", one, bit, func(w *Wire) {
+			w.PrepMsgEdit = func(j int, b []byte) []byte {
+				if j == one {
+					b[bit/8] ^= 1 << (bit % 8)
+				}
+				return b
+			}
+		})
+		try("prep-message-all-aggregators", -1, bit, func(w *Wire) {
+			w.PrepMsgEdit = func(j int, b []byte) []byte { b[bit/8] ^= 1 << (bit % 8); return b }
+		})
+	}
 }
